@@ -219,6 +219,20 @@ pub trait UnknownAttributeStorage: Any + Debug + Downcast {
         rhs_out: DartIdType,
         inp: DartIdType,
     ) -> TransactionClosureResult<(), AttributeError>;
+
+    /// Forget the value stored under `id`, whatever the attribute kind.
+    ///
+    /// Used when a dart is removed, so that a later reuse of its slot does not hand out stale
+    /// data. The default implementation does nothing.
+    ///
+    /// # Errors
+    ///
+    /// This method is meant to be called in a context where the returned `Result` is used to
+    /// validate the transaction passed as argument. Errors should not be processed manually,
+    /// only processed via the `?` operator.
+    fn clear_slot(&self, _trans: &mut Transaction, _id: DartIdType) -> StmClosureResult<()> {
+        Ok(())
+    }
 }
 
 impl_downcast!(UnknownAttributeStorage);
